@@ -109,16 +109,19 @@ def judge_doc(doc, cases, variants):
             if c["err"] or c["n"] == 0 or c.get("names"):
                 continue
             stats["cases"] += 1
-            r = queryobs.run_query(data, loc, c["dot"], "must")
+            # the query itself in dot or in slash notation (the reported path must not depend on how the query was spelled);
+            # which one: by case index, so both notations meet every segment kind and document family
+            qtext = c["sl"] if (stats["cases"] + len(doc)) % 2 else c["dot"]
+            r = queryobs.run_query(data, loc, qtext, "must")
             if r["out"] != "ok":
                 continue            # C01 / C15 decide outcomes
-            r2 = queryobs.run_query(data, loc, c["dot"], "must")
+            r2 = queryobs.run_query(data, loc, qtext, "must")
             problems = []
             for k, h in enumerate(r["hits"]):
                 if h.member or isinstance(h.node, type(None)) and False:
                     continue        # members of virtual results designate no single coordinate set
                 stats["results"] += 1
-                for rel, msg in check_hit(data, loc, h, c["dot"]):
+                for rel, msg in check_hit(data, loc, h, qtext):
                     problems.append((rel, msg))
                 # R4: second evaluation gives equal coordinates
                 if r2["out"] == "ok" and k < len(r2["hits"]):
@@ -138,7 +141,7 @@ def judge_doc(doc, cases, variants):
                 for rel in rels:
                     msg = next(p[1] for p in problems if p[0] == rel)
                     sig = "%s:%s:%s" % (rel, c["ty"], _parent_kind(doc, c))
-                    out.append((sig, "doc %s query %r: %s" % (text.replace("\n", "|"), c["dot"], msg),
+                    out.append((sig, "doc %s query %r: %s" % (text.replace("\n", "|"), qtext, msg),
                                 {"kind": "query", "doc": doc, "style": style, "plain": plain, "case": c}))
             if not absdoc.same_table(absdoc.abstract(data), doc):
                 data = absdoc.load(text)
